@@ -662,11 +662,28 @@ func (c *Conn) NotIdleError(ctx string) error {
 	// two goroutines inside the message reader at once: the command loop reads the
 	// message while the backend is still reading it (never legitimate: the reader
 	// is not made for it, and each of them loses what the other takes)
-	readers := 0
+	// (the same reader: the receiver pointer of the frame is the same)
+	perReader := map[string]int{}
 	all := string(buf[:n])
 	for _, g := range strings.Split(all, "\n\n") {
-		if strings.Contains(g, "go-smtp.(*dataReader).Read(") {
-			readers++
+		seen := map[string]bool{}
+		for _, l := range strings.Split(g, "\n") {
+			if i := strings.Index(l, "go-smtp.(*dataReader).Read("); i >= 0 {
+				arg := l[i+len("go-smtp.(*dataReader).Read("):]
+				if j := strings.IndexAny(arg, ",)"); j > 0 {
+					arg = arg[:j]
+				}
+				if strings.HasPrefix(arg, "0x") && !seen[arg] {
+					seen[arg] = true
+					perReader[arg]++
+				}
+			}
+		}
+	}
+	readers := 0
+	for _, k := range perReader {
+		if k > readers {
+			readers = k
 		}
 	}
 	if readers >= 2 {
